@@ -27,6 +27,7 @@ THEOREMS = ['C08_volume_str_counts', 'C08_write_wf', 'C08_prune_preserves_wf',
             'C08_table_keys_linked', 'C08_matching_numbers_linked',
             'C08_insert_helpers_ok', 'C08_convert_wf_full_linked',
             'C08_norm_fixed_linked', 'C08_convert_wf_all_linked',
+            'C08_convert_wf_all_linked_total',
             'C08_numbers_given', 'C08_numbers_finite', 'C08_words_okb_sound',
             'C08_remove_empty_volumes_ok', 'C08_geomcomp_partition',
             'C08_bc_defined',
@@ -53,9 +54,8 @@ TRUSTED = [
 ]
 ASSUMPTIONS = [
     'material tokens are decimal digits, M-card numbers are positive',
-    'remaining hypotheses of C08_convert_wf_all_linked (stage0_rest4), each '
-    'evaluated on every snapshot (tie:stage0, tie:text, tie:density): the '
-    'volume table is not empty; skipped cells are numbers below the counter '
+    'remaining hypotheses of C08_convert_wf_all_linked_total (stage0_rest5), each '
+    'evaluated on every snapshot (tie:stage0, tie:text, tie:density): skipped cells are numbers below the counter '
     'outside the conversion list; every non-virtual volume comes from a cell '
     'whose material has a card and a live cell (false for the open findings '
     'material_without_card / negative_importance_no_composition); the strings '
